@@ -26,7 +26,20 @@ import threading
 import time
 
 ROOT = os.path.dirname(os.path.dirname(os.path.abspath(__file__)))
-REPO = "/repo"
+REPO = os.environ.get("VERIF_REPO") or os.environ.get("VP_RUN_REPO") or "/repo"
+
+
+def link_repo():
+    """The harness crates depend on `<ROOT>/.repo/weechess-*`; point that at the tree under check."""
+    link = os.path.join(ROOT, ".repo")
+    tmp = link + ".tmp%d" % os.getpid()
+    try:
+        if os.path.islink(link) and os.readlink(link) == REPO:
+            return
+        os.symlink(REPO, tmp)
+        os.replace(tmp, link)
+    except OSError:
+        pass
 TARGET = os.path.join(ROOT, "target")
 WORK = os.path.join(ROOT, "work")
 EVID = os.path.join(ROOT, "evidence")
@@ -593,7 +606,7 @@ def run_all(insts, harnesses, workdir):
             cond.notify_all()
         log("[cbmc] %-52s %-12s %6.1fs  %s" % (inst.name, r.status.upper(), r.wall_s,
                                                  r.reason if r.status != "pass" else
-                                                 "%d props, %d/%d covers, %d vars" % (r.nprops, sum(r.covers.values()), len(r.covers), r.vars)))
+                                                 "%d props, %d/%d covers, %d vars, %d MB" % (r.nprops, sum(r.covers.values()), len(r.covers), r.vars, r.peak_rss_mb)))
         return r
 
     with cf.ThreadPoolExecutor(max_workers=max(NJOBS, 1) * 2) as ex:
@@ -733,7 +746,7 @@ def write_evidence(pid, plan, tier, seed, results, violations, inconclusive, kno
             "bounds": r.inst.bounds, "unwind": r.inst.unwind, "unwindset": r.unwindset,
             "memory_safety_checks": not r.inst.nomem, "stubs": list(r.inst.stubs),
             "cbmc_properties": r.nprops, "covers": r.covers, "sat_variables": r.vars, "sat_clauses": r.clauses,
-            "solver_s": round(r.solver_s, 2), "symex_s": round(r.symex_s, 2), "wall_s": round(r.wall_s, 1),
+            "solver_s": round(r.solver_s, 2), "symex_s": round(r.symex_s, 2), "wall_s": round(r.wall_s, 1), "peak_rss_mb": r.peak_rss_mb,
             "note": r.reason,
         })
     funcs = sorted({f for r in results for f in r.inst.functions})
@@ -776,6 +789,7 @@ def write_evidence(pid, plan, tier, seed, results, violations, inconclusive, kno
 
 def main():
     import argparse
+    link_repo()
     sys.path.insert(0, os.path.join(ROOT, "lib"))
     import plan as planmod
     ap = argparse.ArgumentParser()
